@@ -311,6 +311,7 @@ class OpsDomain(SymDomain):
                 i = it.rvalue(e["args"][1], fr)
                 if not (0 <= i < len(b.items)):
                     self.oob.append((b.name, i, len(b.items), ir.locstr(e)))
+                    conc.GLOBAL_OOB.append((b.name, i, len(b.items), ir.locstr(e)))
                     raise ThrowEx("vector index out of range", ir.locstr(e))
                 return b.items[i]
         if k == "Call" and "this" in e and e["this"] is not None:
